@@ -68,6 +68,22 @@ fn r(k: &str, v: i64) -> Value {
     json!({"k": k, "v": v})
 }
 
+/// A user-written evaluator that probes the objective function once more per individual and accounts for its own
+/// probes in the evaluation counter (the evaluation step adds the individuals it was given on top).
+struct Probing;
+impl mahf::problems::Evaluate for Probing {
+    type Problem = P;
+    fn evaluate(&mut self, problem: &P, state: &mut State<P>, individuals: &mut [Individual<P>]) {
+        for i in individuals.iter_mut() {
+            let _probe = problem.objective(i.solution());
+            i.evaluate_with(|s| problem.objective(s));
+        }
+        if let Ok(mut e) = state.try_borrow_value_mut::<Evaluations>() {
+            *e += individuals.len() as u32;
+        }
+    }
+}
+
 fn comp(problem: &P, state: &mut State<'static, P>, c: Box<dyn Component<P>>) -> Value {
     match caught(|| c.execute(problem, state)) {
         Ok(Ok(())) => r("ok", 0),
@@ -141,8 +157,12 @@ fn exec(problem: &P, state: &mut State<'static, P>, a: &Value, k: usize) -> Valu
             ind.set_objective(v) as i64
         }),
         "evaluate" => {
-            // s = 0: sequential evaluator; s = k > 0: parallel evaluator inside a pool of k worker threads
-            if s >= 1 {
+            // s = 0: sequential evaluator; s = 1..3: parallel evaluator inside a pool of s worker threads;
+            // s = 4: a user-written evaluator that makes (and counts) one extra objective call per individual
+            if s == 4 {
+                state.insert_evaluator(Probing);
+                comp(problem, state, PopulationEvaluator::new())
+            } else if s >= 1 {
                 state.insert_evaluator(Parallel::<P>::new());
                 let pool = rayon::ThreadPoolBuilder::new().num_threads(s as usize).build().expect("rayon pool");
                 pool.install(|| comp(problem, state, PopulationEvaluator::new()))
@@ -315,7 +335,7 @@ pub fn main(args: &Args) -> usize {
                             51..=53 => act("round_trip", 0, 0),
                             54..=58 if n > 0 => act("evaluate_with", i, 0),
                             59..=62 if n > 0 => act("set_objective", i, 0),
-                            63..=74 => act("evaluate", 0, rng.gen_range(0..5)),
+                            63..=74 => act("evaluate", 0, rng.gen_range(0..5)),   // incl. the probing evaluator (4)
                             75 => act("evaluate_missing", 0, rng.gen_range(0..5)),
                             76 => act("evaluate_nested", 0, rng.gen_range(1..4)),
                             77..=85 if all_eval => act("update_best", 0, 0),
